@@ -26,7 +26,7 @@ from urllib.parse import quote, unquote_to_bytes
 import webob
 
 from vp import http
-from vp.enum import EnumWorker, run_cases
+from vp.enum import EnumWorker
 from vp.names import A, K, P, UNKNOWN_UUID
 from vp.probe import Run
 from vp.snapshot import diff
@@ -1342,6 +1342,19 @@ def judge(req, resp, changed):
 
 class Worker(EnumWorker):
     def setup(self):
+        # pool workers end through the pool's sentinel or SIGTERM, neither of which runs
+        # atexit: remove the scratch database through multiprocessing's finalizer / a handler
+        import os
+        import shutil
+        import signal
+        from multiprocessing import util as mp_util
+        scratch = self.h.dir
+        mp_util.Finalize(None, shutil.rmtree, args=(scratch, True), exitpriority=0)
+
+        def _term(*_):
+            shutil.rmtree(scratch, True)
+            os._exit(0)
+        signal.signal(signal.SIGTERM, _term)
         self.corpus = get_corpus()
         self.images = {}
         self.cores = {}
